@@ -12,171 +12,324 @@
 (* create unregistered columns (_expandInformation) and may move roles      *)
 (* (DGM centring of the coordinates).  _postprocess removes the temporary   *)
 (* groups, restores roles, renames the permanent groups.                    *)
+(* Some entry points of the family do not go through ACalculator::run       *)
+(* (simbool, pointToBlock, ...): they create and delete their columns       *)
+(* themselves; the same four steps describe them, with groups that no       *)
+(* bookkeeping knows (reg = FALSE) and no roll-back at all.                 *)
 (*                                                                         *)
 (* Two protocols are model-checked:                                         *)
-(*   "intended"    roll-back removes permanent AND temporary groups,         *)
-(*                 unregistered columns, and restores moved roles           *)
+(*   "intended"    every failure is reported, and the roll-back removes     *)
+(*                 permanent AND temporary groups, registered or not, the   *)
+(*                 unregistered columns, and restores every moved role      *)
 (*   "transcribed" roll-back as written in the calculators of the tree      *)
-(*                 being verified (field rb of the profile)                 *)
-(* Atomic / Exact are invariants of the intended protocol; for the          *)
+(*                 being verified (fields rb, lies, postUnreg of the        *)
+(*                 profile)                                                 *)
+(* Atomic / Exact / Honest are invariants of the intended protocol; for the *)
 (* transcribed protocol TLC lists the (profile, fault) pairs that break     *)
 (* them: these are predictions about the code, decided by the conformance   *)
 (* run on the real calculators (TraceCalculator).                           *)
 (***************************************************************************)
 EXTENDS Integers, Sequences, FiniteSets, TLC, Json, SequencesExt
 
-\* A profile = one public entry point.
-\*  groups : sequence of [db |-> "in"|"out", status |-> "perm"|"temp", n |-> Nat]  (creation order)
-\*  same   : dbin and dbout are the same object (cross-validation, single-db calculators)
-\*  unreg  : number of columns created outside the bookkeeping during _preprocess
-\*  moves  : TRUE when _preprocess re-assigns roles of dbin (DGM centring)
-\*  rb     : what the transcribed _rollback undoes, subset of {"perm","temp","unreg","roles"}
-Profiles ==
-  { [name |-> "kriging",     same |-> FALSE, groups |-> <<[db |-> "out", status |-> "perm", n |-> 1], [db |-> "out", status |-> "perm", n |-> 1]>>,
-       unreg |-> 0, moves |-> FALSE, rb |-> {"perm", "temp"}],
-    [name |-> "krigtest",    same |-> FALSE, groups |-> <<[db |-> "out", status |-> "temp", n |-> 1], [db |-> "out", status |-> "temp", n |-> 1]>>,
-       unreg |-> 0, moves |-> FALSE, rb |-> {"perm", "temp"}],
-    [name |-> "xvalid",      same |-> TRUE,  groups |-> <<[db |-> "out", status |-> "perm", n |-> 1], [db |-> "out", status |-> "perm", n |-> 1]>>,
-       unreg |-> 0, moves |-> FALSE, rb |-> {"perm", "temp"}],
-    [name |-> "test_neigh",  same |-> FALSE, groups |-> <<[db |-> "out", status |-> "perm", n |-> 5]>>,
-       unreg |-> 0, moves |-> FALSE, rb |-> {"perm", "temp"}],
-    [name |-> "simtub_nc",   same |-> FALSE, groups |-> <<[db |-> "out", status |-> "perm", n |-> 2]>>,
-       unreg |-> 0, moves |-> FALSE, rb |-> {"perm", "temp"}],
-    [name |-> "simtub_cond", same |-> FALSE, groups |-> <<[db |-> "in", status |-> "temp", n |-> 2], [db |-> "out", status |-> "perm", n |-> 2]>>,
-       unreg |-> 0, moves |-> FALSE, rb |-> {"perm", "temp"}],
-    [name |-> "kriging_extdrift", same |-> FALSE, groups |-> <<[db |-> "out", status |-> "perm", n |-> 1], [db |-> "out", status |-> "perm", n |-> 1]>>,
-       unreg |-> 1, moves |-> FALSE, rb |-> {"perm", "temp"}],
-    [name |-> "kriging_dgm", same |-> FALSE, groups |-> <<[db |-> "out", status |-> "perm", n |-> 1], [db |-> "out", status |-> "perm", n |-> 1], [db |-> "in", status |-> "temp", n |-> 2]>>,
-       unreg |-> 0, moves |-> TRUE, rb |-> {"perm", "temp"}],
-    [name |-> "migrate",     same |-> FALSE, groups |-> <<[db |-> "out", status |-> "perm", n |-> 1]>>,
-       unreg |-> 0, moves |-> FALSE, rb |-> {"perm", "temp"}],
-    [name |-> "stats_grid",  same |-> FALSE, groups |-> <<[db |-> "out", status |-> "perm", n |-> 1]>>,
-       unreg |-> 0, moves |-> FALSE, rb |-> {"perm", "temp"}],
-    [name |-> "simple_interp", same |-> FALSE, groups |-> <<[db |-> "out", status |-> "perm", n |-> 1]>>,
-       unreg |-> 0, moves |-> FALSE, rb |-> {"perm", "temp"}],
-    [name |-> "simfft",      same |-> TRUE,  groups |-> <<[db |-> "out", status |-> "perm", n |-> 1]>>,
-       unreg |-> 0, moves |-> FALSE, rb |-> {"perm", "temp"}],
-    [name |-> "anam_transform", same |-> TRUE, groups |-> <<[db |-> "out", status |-> "perm", n |-> 1]>>,
-       unreg |-> 0, moves |-> FALSE, rb |-> {"perm", "temp"}],
-    [name |-> "regression",  same |-> TRUE,  groups |-> <<[db |-> "in", status |-> "perm", n |-> 1]>>,
-       unreg |-> 0, moves |-> FALSE, rb |-> {"perm", "temp"}],
-    [name |-> "nearest_neighbor", same |-> FALSE, groups |-> <<[db |-> "out", status |-> "perm", n |-> 1]>>,
-       unreg |-> 0, moves |-> FALSE, rb |-> {"perm", "temp"}],
-    [name |-> "moving_average", same |-> FALSE, groups |-> <<[db |-> "out", status |-> "perm", n |-> 1]>>,
-       unreg |-> 0, moves |-> FALSE, rb |-> {"perm", "temp"}],
-    [name |-> "least_squares", same |-> FALSE, groups |-> <<[db |-> "out", status |-> "perm", n |-> 1]>>,
-       unreg |-> 0, moves |-> FALSE, rb |-> {"perm", "temp"}],
-    [name |-> "migrate_multi", same |-> FALSE, groups |-> <<[db |-> "out", status |-> "perm", n |-> 2]>>,
-       unreg |-> 0, moves |-> FALSE, rb |-> {"perm", "temp"}],
-    [name |-> "migrate_locator", same |-> FALSE, groups |-> <<[db |-> "out", status |-> "perm", n |-> 1]>>,
-       unreg |-> 0, moves |-> FALSE, rb |-> {"perm", "temp"}],
-    [name |-> "kribayes",    same |-> FALSE, groups |-> <<[db |-> "out", status |-> "perm", n |-> 1], [db |-> "out", status |-> "perm", n |-> 1]>>,
-       unreg |-> 0, moves |-> FALSE, rb |-> {"perm", "temp"}] }
+\* A group of columns created by one _addVariableDb call (or one addColumns* call of an entry point
+\* that keeps no books):
+\*  db     : "in" | "out"
+\*  status : "perm" (kept and renamed on success) | "temp" (removed on success)
+\*  n      : number of columns
+\*  reg    : registered in the bookkeeping lists (what _cleanVariableDb can see)
+\*  mv     : the X roles of dbin are moved onto these columns right after their creation (centring)
+G(db, st, n)  == [db |-> db, status |-> st, n |-> n, reg |-> TRUE,  mv |-> FALSE]
+GX(n)         == [db |-> "in", status |-> "temp", n |-> n, reg |-> TRUE,  mv |-> TRUE]
+GU(db, st, n) == [db |-> db, status |-> st, n |-> n, reg |-> FALSE, mv |-> FALSE]
+
+\* A profile = one public entry point (x one option class when the options change what is created).
+\*  same     : dbin and dbout are the same object (cross-validation, single-db calculators)
+\*  hooks    : the entry point goes through ACalculator::run (faults can be injected between stages)
+\*  noerr    : the entry point returns no error code (a result structure instead)
+\*  unreg    : number of columns created outside the bookkeeping during _preprocess (_expandInformation)
+\*  postUnreg: the transcribed _postprocess removes them (turning bands only)
+\*  cmoves   : the entry point / _check re-assigns roles of dbin BEFORE the first test that can fail
+\*  runUnreg : columns created by _run itself (nested calculators) and removed at its end
+\*  lies     : stages having error branches that return 1 (= true) from a bool function; "center": the centring
+\*             does not test the allocation of the coordinate copies and centres the original coordinates
+\*  scribbles: _run writes its progress into pre-existing (input) variables
+\*  postClears: the transcribed _postprocess clears a role of pre-existing variables without giving it to an output
+\*  rb       : what the transcribed _rollback undoes, subset of
+\*             {"perm","temp","unreg","roles","croles","runcols"} (only registered groups can be removed)
+P(name, same, groups) ==
+  [name |-> name, same |-> same, hooks |-> TRUE, noerr |-> FALSE, groups |-> groups, unreg |-> 0, postUnreg |-> FALSE,
+   cmoves |-> FALSE, runUnreg |-> 0, lies |-> {}, scribbles |-> FALSE, postClears |-> FALSE, rb |-> {"perm", "temp"}]
+\* entry points outside ACalculator::run: no bookkeeping, no roll-back
+Q(name, same, groups) == [P(name, same, groups) EXCEPT !.hooks = FALSE, !.rb = {}]
+
+Est1Std1 == <<G("out", "perm", 1), G("out", "perm", 1)>>
+One      == <<G("out", "perm", 1)>>
+
+ProfilesKriging ==
+  { [P("kriging", FALSE, Est1Std1) EXCEPT !.lies = {"check"}],                       \* IMAGE neighbourhood: return 1
+    [P("krigtest", FALSE, <<G("out", "temp", 1), G("out", "temp", 1)>>) EXCEPT !.noerr = TRUE],
+    P("xvalid", TRUE, Est1Std1),
+    P("test_neigh", FALSE, <<G("out", "perm", 5)>>),
+    [P("kriging_extdrift", FALSE, Est1Std1) EXCEPT !.unreg = 1],
+    \* DGM: estimation groups first, then the centred copies of the coordinates (temporary, in dbin) take the X roles
+    [P("kriging_dgm", FALSE, <<G("out", "perm", 1), G("out", "perm", 1), GX(2)>>) EXCEPT !.lies = {"center"}],
+    P("kribayes", FALSE, Est1Std1),
+    P("krigcell", FALSE, Est1Std1),
+    P("krigprof", FALSE, Est1Std1),
+    P("kriggam", FALSE, Est1Std1),
+    P("kriging_varz", FALSE, <<G("out", "perm", 1), G("out", "perm", 1), G("out", "perm", 1)>>),
+    \* CalcKrigingFactors: _check clears Z in dbin and gives it to the first factor only, before any test;
+    \* every error branch of _run returns 1; with a change of support the centring comes BEFORE the outputs
+    [P("krig_factors", FALSE, <<G("out", "perm", 2), G("out", "perm", 2)>>) EXCEPT !.cmoves = TRUE, !.lies = {"run"}],
+    [P("krig_factors_cs", FALSE, <<GX(2), G("out", "perm", 2), G("out", "perm", 2)>>) EXCEPT !.cmoves = TRUE, !.lies = {"run", "center"}],
+    \* CalcImage (dbin = dbout = the grid)
+    P("krimage", TRUE, One),
+    P("db_smoother", TRUE, One),
+    P("morpho", TRUE, One),
+    P("morpho_gradient", TRUE, <<G("out", "perm", 2)>>),
+    \* CalcGlobal: no column at all, result structure
+    [P("global_arithmetic", FALSE, <<>>) EXCEPT !.noerr = TRUE],
+    [P("global_kriging", FALSE, <<>>) EXCEPT !.noerr = TRUE],
+    \* CalcSimpleInterpolation
+    P("simple_interp", FALSE, One),
+    P("invdist_std", FALSE, Est1Std1),
+    P("nearest_neighbor", FALSE, One),
+    P("moving_average", FALSE, One),
+    P("moving_median", FALSE, One),
+    P("least_squares", FALSE, One) }
+
+ProfilesSimu ==
+  { [P("simtub_nc", FALSE, <<G("out", "perm", 2)>>) EXCEPT !.postUnreg = TRUE, !.lies = {"check"}],    \* nbtuba <= 0: return 1
+    [P("simtub_cond", FALSE, <<G("in", "temp", 2), G("out", "perm", 2)>>) EXCEPT !.postUnreg = TRUE],
+    [P("simbayes", FALSE, <<G("in", "temp", 2), G("out", "perm", 2)>>) EXCEPT !.postUnreg = TRUE],
+    [P("simtub_dgm", FALSE, <<G("in", "temp", 2), G("out", "perm", 2), GX(2)>>) EXCEPT !.postUnreg = TRUE, !.lies = {"center"}],
+    P("simfft", TRUE, One),
+    P("simfft_multi", TRUE, <<G("out", "perm", 2)>>),
+    P("tess_voronoi", FALSE, One),
+    \* Poisson polyhedra: _run simulates a Gaussian field into the grid with a nested simtub and deletes it at its end
+    [P("tess_poisson", FALSE, One) EXCEPT !.runUnreg = 1],
+    P("substitution", FALSE, One),
+    \* CalcSimuEden propagates in place in the Facies / Fluid variables given as input
+    [P("eden", FALSE, Est1Std1) EXCEPT !.scribbles = TRUE],                   \* Fluid, Date
+    [P("eden_stats", FALSE, <<G("out", "perm", 2), G("out", "perm", 1), G("out", "perm", 1), G("out", "perm", 1)>>) EXCEPT !.scribbles = TRUE],
+    P("simu_refine", FALSE, <<>>),                                            \* returns a new grid, touches no db
+    \* SimuBoolean / SimuSpherical derive from ACalcSimulation but their entry points never call run():
+    \* they add the work column "Cover" to dbin and the outputs to dbout themselves
+    Q("simbool", FALSE, <<GU("in", "temp", 1), GU("out", "perm", 1), GU("out", "perm", 1)>>),
+    Q("simbool_nc", FALSE, <<GU("out", "perm", 1), GU("out", "perm", 1)>>),
+    Q("simsph", TRUE, <<GU("out", "perm", 1)>>) }
+
+ProfilesDbToDb ==
+  { P("migrate", FALSE, One),
+    P("migrate_multi", FALSE, <<G("out", "perm", 2)>>),
+    P("migrate_locator", FALSE, One),
+    P("migrate_attr", FALSE, <<G("out", "perm", 3)>>),
+    P("stats_grid", FALSE, One),
+    P("regression", TRUE, <<G("in", "perm", 1)>>),
+    P("g2g_copy", FALSE, One),
+    P("g2g_expand", FALSE, One),
+    P("g2g_shrink", FALSE, <<G("out", "perm", 1), G("out", "temp", 1)>>),
+    P("g2g_interp", FALSE, One),
+    \* CalcSimuPost renames with a variable count of 0: the naming convention clears the Z roles and sets none
+    [P("simupost_up", FALSE, <<G("out", "perm", 2)>>) EXCEPT !.postClears = TRUE],
+    [P("simupost_self", TRUE, <<G("in", "perm", 2)>>) EXCEPT !.postClears = TRUE],
+    [P("simupost_demo", FALSE, <<G("out", "perm", 4)>>) EXCEPT !.postClears = TRUE],
+    [P("simupost_layer", FALSE, <<G("out", "perm", 3)>>) EXCEPT !.postClears = TRUE],
+    \* plain functions of CalcMigrate.cpp (no calculator object)
+    Q("point_to_block", FALSE, <<GU("out", "perm", 1), GU("in", "temp", 1), GU("in", "perm", 3)>>),
+    Q("interp_to_point", FALSE, <<>>),
+    Q("expand_point_to_grid", FALSE, <<>>),
+    Q("db_proportion", FALSE, <<GU("out", "perm", 2)>>) }
+
+ProfilesAnam ==
+  { \* the entry points designating the variable by its name ("by_name" set-up) give it the Z role before the run
+    [P("anam_transform", TRUE, One) EXCEPT !.cmoves = TRUE],
+    [P("gaussian_to_raw", TRUE, One) EXCEPT !.cmoves = TRUE],
+    [P("normal_score", TRUE, One) EXCEPT !.cmoves = TRUE],       \* always by name: Z role assigned before the run
+    P("raw_to_factor", TRUE, <<G("out", "perm", 2)>>),
+    P("raw_to_factor_ranks", TRUE, <<G("out", "perm", 2)>>),
+    P("cond_expectation", TRUE, <<G("out", "perm", 2)>>),
+    P("uniform_cond", TRUE, <<G("out", "perm", 2)>>),
+    P("disj_kriging", TRUE, <<G("out", "perm", 2)>>) }
+
+Profiles == ProfilesKriging \cup ProfilesSimu \cup ProfilesDbToDb \cup ProfilesAnam
 
 Protocols == {"intended", "transcribed"}
 
-AddvarName(k) == CASE k = 1 -> "addvar1" [] k = 2 -> "addvar2" [] k = 3 -> "addvar3" [] OTHER -> "addvar9"
-\* where a failure strikes
-Faults(p) == {"none", "check", "after_check", "after_preprocess", "run", "after_run", "postprocess"}
-             \cup {AddvarName(k) : k \in 1..Len(p.groups)}
+AddvarName(k) == CASE k = 1 -> "addvar1" [] k = 2 -> "addvar2" [] k = 3 -> "addvar3" [] k = 4 -> "addvar4" [] OTHER -> "addvar9"
+\* where a failure strikes.  "check" / "run": an error branch of the stage that reports the failure;
+\* "check_r1" / "run_r1": an error branch written `return 1` in a bool stage
+Faults(p) ==
+  IF p.hooks
+  THEN {"none", "check", "after_check", "after_preprocess", "run", "after_run", "postprocess"}
+       \cup {AddvarName(k) : k \in {j \in 1..Len(p.groups) : p.groups[j].reg}}
+       \cup (IF "check" \in p.lies THEN {"check_r1"} ELSE {})
+       \cup (IF "run" \in p.lies THEN {"run_r1"} ELSE {})
+  ELSE {"none", "check", "run"}
 
 VARIABLES prof, proto, fault,
-          stage,     \* "idle","checked","preprocessing","preprocessed","ran","done","rolledback"
+          stage,     \* "idle","checked","preprocessing","preprocessed","ran","postprocessing","done","failing","rolledback"
           made,      \* sequence of groups created so far (still present)
-          unregd,    \* unregistered columns present
-          moved,     \* roles of dbin currently moved
+          unregd,    \* unregistered columns present (dbin)
+          moved,     \* X roles of dbin currently moved (centring)
+          cmoved,    \* roles of dbin re-assigned by the entry point / _check
+          runcols,   \* columns created by _run itself still present
+          dirty,     \* pre-existing values overwritten
           renamed,   \* permanent groups renamed by _postprocess
+          lied,      \* a failed stage went on as if it had succeeded
           ret        \* "none","ok","fail"
-vars == <<prof, proto, fault, stage, made, unregd, moved, renamed, ret>>
+vars == <<prof, proto, fault, stage, made, unregd, moved, cmoved, runcols, dirty, renamed, lied, ret>>
 
 Init == /\ prof \in Profiles /\ proto \in Protocols /\ fault \in Faults(prof)
-        /\ stage = "idle" /\ made = <<>> /\ unregd = 0 /\ moved = FALSE /\ renamed = FALSE /\ ret = "none"
+        /\ stage = "idle" /\ made = <<>> /\ unregd = 0 /\ moved = FALSE /\ cmoved = FALSE /\ runcols = 0 /\ dirty = FALSE
+        /\ renamed = FALSE /\ lied = FALSE /\ ret = "none"
 
 Fail == stage' = "failing"
+\* does the stage go on after the failure f ?
+LiesAbout(f) == proto = "transcribed" /\ f \in {"check_r1", "run_r1"}
 
 Check == /\ stage = "idle"
-         /\ IF fault = "check" THEN Fail ELSE stage' = "checked"
-         /\ UNCHANGED <<prof, proto, fault, made, unregd, moved, renamed, ret>>
+         /\ cmoved' = prof.cmoves
+         /\ IF fault \in {"check", "check_r1"} /\ ~LiesAbout(fault) THEN Fail /\ UNCHANGED lied
+            ELSE stage' = "checked" /\ lied' = (fault = "check_r1")
+         /\ UNCHANGED <<prof, proto, fault, made, unregd, moved, runcols, dirty, renamed, ret>>
 
 AfterCheck == /\ stage = "checked"
               /\ IF fault = "after_check" THEN Fail ELSE stage' = "preprocessing"
-              /\ UNCHANGED <<prof, proto, fault, made, unregd, moved, renamed, ret>>
+              /\ UNCHANGED <<prof, proto, fault, made, unregd, moved, cmoved, runcols, dirty, renamed, lied, ret>>
 
-\* _preprocess: unregistered columns first (ACalcInterpolator), then the groups one by one, then the role move
+\* _preprocess: unregistered columns first (ACalcInterpolator), then the groups one by one
 Create == /\ stage = "preprocessing"
           /\ Len(made) < Len(prof.groups)
           /\ LET k == Len(made) + 1 IN
-             IF fault = AddvarName(k)
-             THEN Fail /\ UNCHANGED <<made, unregd>>
+             IF fault = AddvarName(k) /\ prof.groups[k].reg
+             THEN IF proto = "transcribed" /\ prof.groups[k].mv /\ "center" \in prof.lies
+                  THEN \* the failed allocation goes unnoticed: the original coordinates are centred in place
+                       /\ made' = Append(made, [prof.groups[k] EXCEPT !.n = 0])
+                       /\ dirty' = TRUE /\ lied' = TRUE /\ unregd' = prof.unreg
+                       /\ UNCHANGED <<stage, moved>>
+                  ELSE Fail /\ UNCHANGED <<made, moved, dirty, lied>> /\ unregd' = prof.unreg
              ELSE /\ made' = Append(made, prof.groups[k])
+                  /\ moved' = (moved \/ prof.groups[k].mv)
                   /\ unregd' = prof.unreg
-                  /\ UNCHANGED stage
-          /\ UNCHANGED <<prof, proto, fault, moved, renamed, ret>>
+                  /\ UNCHANGED <<stage, dirty, lied>>
+          /\ UNCHANGED <<prof, proto, fault, cmoved, runcols, renamed, ret>>
 
 PreDone == /\ stage = "preprocessing"
            /\ Len(made) = Len(prof.groups)
-           /\ moved' = prof.moves
            /\ unregd' = prof.unreg
            /\ IF fault = "after_preprocess" THEN Fail ELSE stage' = "preprocessed"
-           /\ UNCHANGED <<prof, proto, fault, made, renamed, ret>>
+           /\ UNCHANGED <<prof, proto, fault, made, moved, cmoved, runcols, dirty, renamed, lied, ret>>
 
+\* _run: a failure strikes while the columns it created itself are there
 Run == /\ stage = "preprocessed"
-       /\ IF fault = "run" THEN Fail ELSE stage' = "ran"
-       /\ UNCHANGED <<prof, proto, fault, made, unregd, moved, renamed, ret>>
+       /\ dirty' = (dirty \/ prof.scribbles)
+       /\ IF fault \in {"run", "run_r1"}
+          THEN /\ runcols' = prof.runUnreg
+               /\ IF LiesAbout(fault) THEN stage' = "ran" /\ lied' = TRUE ELSE Fail /\ UNCHANGED lied
+          ELSE stage' = "ran" /\ runcols' = 0 /\ UNCHANGED lied
+       /\ UNCHANGED <<prof, proto, fault, made, unregd, moved, cmoved, renamed, ret>>
 
 AfterRun == /\ stage = "ran"
             /\ IF fault = "after_run" THEN Fail ELSE stage' = "postprocessing"
-            /\ UNCHANGED <<prof, proto, fault, made, unregd, moved, renamed, ret>>
+            /\ UNCHANGED <<prof, proto, fault, made, unregd, moved, cmoved, runcols, dirty, renamed, lied, ret>>
 
-\* _postprocess: temporary groups removed first, roles restored, unregistered columns removed, then renaming
+\* _postprocess: temporary groups removed first, roles restored, (unregistered columns removed), then renaming
 Post == /\ stage = "postprocessing"
-        /\ made' = SelectSeq(made, LAMBDA g : g.status = "perm")
+        /\ made' = SelectSeq(made, LAMBDA g : g.status = "perm" /\ g.n > 0)
         /\ moved' = FALSE
-        /\ unregd' = 0
+        /\ cmoved' = (proto = "transcribed" /\ prof.postClears)
+        /\ dirty' = IF proto = "intended" THEN FALSE ELSE dirty
+        /\ unregd' = IF proto = "intended" \/ prof.postUnreg THEN 0 ELSE unregd
         /\ IF fault = "postprocess"
            THEN Fail /\ UNCHANGED <<renamed, ret>>
            ELSE stage' = "done" /\ renamed' = TRUE /\ ret' = "ok"
-        /\ UNCHANGED <<prof, proto, fault>>
+        /\ UNCHANGED <<prof, proto, fault, runcols, lied>>
 
-Undone == IF proto = "intended" THEN {"perm", "temp", "unreg", "roles"} ELSE prof.rb
+Undone == IF proto = "intended" THEN {"perm", "temp", "unreg", "roles", "croles", "runcols", "values"} ELSE prof.rb
 
 Rollback == /\ stage = "failing"
-            /\ made' = SelectSeq(made, LAMBDA g : g.status \notin Undone)
+            /\ made' = SelectSeq(made, LAMBDA g : ~(g.status \in Undone /\ (g.reg \/ proto = "intended")))
             /\ unregd' = IF "unreg" \in Undone THEN 0 ELSE unregd
             /\ moved' = IF "roles" \in Undone THEN FALSE ELSE moved
+            /\ cmoved' = IF "croles" \in Undone THEN FALSE ELSE cmoved
+            /\ runcols' = IF "runcols" \in Undone THEN 0 ELSE runcols
+            /\ dirty' = IF "values" \in Undone THEN FALSE ELSE dirty
             /\ stage' = "rolledback" /\ ret' = "fail"
-            /\ UNCHANGED <<prof, proto, fault, renamed>>
+            /\ UNCHANGED <<prof, proto, fault, renamed, lied>>
 
 Next == Check \/ AfterCheck \/ Create \/ PreDone \/ Run \/ AfterRun \/ Post \/ Rollback
 Spec == Init /\ [][Next]_vars
 
 -----------------------------------------------------------------------------
-Leftover == [groups |-> made, unreg |-> unregd, moved |-> moved]
-Clean    == made = <<>> /\ unregd = 0 /\ ~moved
+Leftover == [groups |-> made, unreg |-> unregd, moved |-> moved, cmoved |-> cmoved, runcols |-> runcols, dirty |-> dirty]
+Clean    == made = <<>> /\ unregd = 0 /\ ~moved /\ ~cmoved /\ runcols = 0 /\ ~dirty
+PermOf(p) == SelectSeq(p.groups, LAMBDA g : g.status = "perm")
 
 \* C19 on the model
 Atomic == ret = "fail" => Clean
-Exact  == ret = "ok" => /\ made = SelectSeq(prof.groups, LAMBDA g : g.status = "perm")
-                        /\ unregd = 0 /\ ~moved /\ renamed
+Exact  == ret = "ok" => /\ made = PermOf(prof)
+                        /\ unregd = 0 /\ ~moved /\ ~cmoved /\ runcols = 0 /\ ~dirty /\ renamed
+Honest == ret = "ok" => fault = "none" /\ ~lied
 Terminates == ret # "none" => stage \in {"done", "rolledback"}
 
 AtomicIntended == proto = "intended" => Atomic
-ExactAll == Exact
+ExactIntended  == proto = "intended" => Exact
+HonestIntended == proto = "intended" => Honest
+\* the transcription itself must at least terminate and never keep a temporary group after a success
+NoTempAfterSuccess == ret = "ok" => \A i \in 1..Len(made) : made[i].status = "perm"
 
 -----------------------------------------------------------------------------
 (* Natural ways of failing offered to the conformance run, per fault point:  *)
 (* inputs that make the named stage of the real calculator fail by itself    *)
 (* (the injected faults need no input).                                      *)
-KrigLike == {"kriging", "krigtest", "xvalid", "test_neigh", "simtub_cond", "kriging_extdrift", "kribayes"}
+KrigLike == {"kriging", "krigtest", "xvalid", "test_neigh", "simtub_cond", "kriging_extdrift", "kribayes",
+             "krigcell", "krigprof", "kriggam", "kriging_varz", "simbayes"}
 NaturalVariants(pname, f) ==
   CASE f = "check" /\ pname \in KrigLike -> {"nvar_mismatch", "ndim_mismatch", "no_model", "no_neigh", "no_z"}
     [] f = "check" /\ pname = "simtub_nc" -> {"ndim_mismatch", "no_model"}
-    [] f = "check" /\ pname \in {"migrate", "anam_transform", "regression"} -> {"bad_name"}
-    [] f = "check" /\ pname = "anam_transform" -> {"bad_name", "anam_not_fitted"}
-    [] f = "check" /\ pname = "stats_grid" -> {"points_out"}
-    [] f = "check" /\ pname \in {"moving_average", "least_squares"} -> {"no_neigh", "ndim_mismatch"}
-    [] f = "run" /\ pname \in {"kriging", "krigtest"} -> {"block_on_points"}
+    [] f = "check" /\ pname \in {"migrate", "regression", "normal_score", "gaussian_to_raw"} -> {"bad_name"}
+    [] f = "check" /\ pname = "migrate_locator" -> {"bad_dist_type"}
+    [] f = "check" /\ pname = "migrate_attr" -> {"bad_dist_type"}
+    [] f = "check" /\ pname = "anam_transform" -> {"bad_name"}
+    [] f = "check" /\ pname = "stats_grid" -> {"no_z"}
+    [] f = "check" /\ pname \in {"moving_average", "least_squares", "moving_median"} -> {"no_neigh", "ndim_mismatch"}
+    [] f = "check" /\ pname \in {"simple_interp", "nearest_neighbor"} -> {"ndim_mismatch", "no_z"}
+    [] f = "check" /\ pname = "invdist_std" -> {"no_model", "no_z"}
+    [] f = "run" /\ pname \in {"kriging", "krigtest", "kriging_varz"} -> {"block_on_points"}
+    [] f = "run" /\ pname = "kriggam" -> {"sill_above_one"}
+    [] f = "run" /\ pname = "krigprof" -> {"no_code"}
+    [] f = "run" /\ pname = "krigcell" -> {"block_on_points", "no_ndisc"}
+    [] f = "check_r1" /\ pname = "kriging" -> {"image_neigh"}
+    [] f = "check_r1" /\ pname = "simtub_nc" -> {"nbtuba_zero"}
     [] f = "check" /\ pname = "kriging_extdrift" -> {"no_ext_out"}
+    [] f = "check" /\ pname \in {"kriging_dgm", "simtub_dgm"} -> {"points_out", "no_anam", "no_support"}
+    [] f = "run" /\ pname = "kriging_dgm" -> {"sill_not_one"}
+    [] f = "check" /\ pname \in {"krig_factors", "krig_factors_cs"} -> {"no_anam", "nvar_model_two", "block_no_ndisc", "no_neigh"}
+    [] f = "run_r1" /\ pname = "krig_factors" -> {"block_on_points"}
+    [] f = "check" /\ pname = "krimage" -> {"no_z", "no_model"}
+    [] f = "check" /\ pname = "db_smoother" -> {"bad_type", "two_z", "no_z"}
+    [] f = "check" /\ pname \in {"morpho", "morpho_gradient"} -> {"two_z", "no_z"}
+    [] f = "run" /\ pname = "morpho" -> {"unknown_oper"}
+    [] f = "check" /\ pname \in {"global_arithmetic", "global_kriging"} -> {"no_model", "bad_ivar", "ndim_mismatch"}
+    [] f = "check" /\ pname \in {"simfft", "simfft_multi"} -> {"no_model", "nvar_model_two"}
+    [] f = "check" /\ pname \in {"tess_voronoi", "tess_poisson"} -> {"no_model"}
+    [] f = "run" /\ pname = "tess_poisson" -> {"no_plane"}
+    [] f = "check" /\ pname \in {"eden", "eden_stats"} -> {"bad_name"}
+    [] f = "run" /\ pname \in {"eden", "eden_stats"} -> {"zero_speed"}
+    [] f = "check" /\ pname = "simu_refine" -> {"no_z", "no_model"}
+    [] f = "check" /\ pname = "simbool" -> {"two_z"}
+    [] f = "run" /\ pname = "simbool" -> {"cannot_cover"}
+    [] f = "check" /\ pname \in {"g2g_copy", "g2g_expand", "g2g_shrink"} -> {"no_z", "wrong_dims"}
+    [] f = "check" /\ pname = "g2g_interp" -> {"no_z", "wrong_dims", "bad_tops"}
+    [] f = "check" /\ pname \in {"simupost_up", "simupost_demo", "simupost_layer"} -> {"bad_name", "no_stat", "no_upscale"}
+    [] f = "check" /\ pname = "simupost_self" -> {"bad_name", "no_stat"}
+    [] f = "check" /\ pname = "point_to_block" -> {"ndim_mismatch"}
+    [] f = "check" /\ pname = "interp_to_point" -> {"no_coord"}
+    [] f = "check" /\ pname = "db_proportion" -> {"no_model", "no_z"}
+    [] f = "check" /\ pname = "raw_to_factor" -> {"no_z"}
+    [] f = "check" /\ pname = "raw_to_factor_ranks" -> {"bad_rank", "no_z"}
+    [] f = "check" /\ pname \in {"cond_expectation", "uniform_cond", "disj_kriging"} -> {"bad_name", "no_selectivity"}
     [] OTHER -> {}
 \* input set-ups that select other code paths of the same entry point (all faults apply to them)
 SetupVariants(pname) ==
@@ -186,19 +339,34 @@ SetupVariants(pname) ==
     [] pname = "migrate" -> {"std", "nolocator"}
     [] pname = "kriging_extdrift" -> {"std", "expand"}     \* "expand": dbin lacks the external drift, _preprocess migrates it
     [] pname = "anam_transform" -> {"std", "by_name"}      \* "by_name": entry point designating the variable by its name
+    [] pname = "gaussian_to_raw" -> {"std", "by_name"}
+    [] pname = "morpho" -> {"erosion", "dilate", "thresh", "open", "nolocator"}
+    [] pname = "krigcell" -> {"std", "nolocator"}
+    [] pname = "simbool" -> {"std", "nolocator"}
+    [] pname = "db_smoother" -> {"uniform", "gaussian"}
+    [] pname = "cond_expectation" -> {"std", "montecarlo"}
     [] OTHER -> {"std"}
 Priors == {"plain", "clash"}
-\* profiles for which the conformance harness has a binding
-Bound == {"kriging", "krigtest", "xvalid", "test_neigh", "simtub_nc", "simtub_cond", "kriging_extdrift", "migrate",
-          "stats_grid", "simple_interp", "simfft", "anam_transform", "regression", "nearest_neighbor", "moving_average",
-          "least_squares", "migrate_multi", "migrate_locator", "kribayes"}
+\* profiles for which the conformance harness has no binding (with the reason)
+Unbound == {"simsph",          \* needs the process-wide default space switched to the sphere
+            "db_proportion"}   \* db_proportion_estimate is not exported by the shared library (hidden symbol)
+Bound == {p.name : p \in Profiles} \ Unbound
+
+Count(groups, db) == LET S == {i \in 1..Len(groups) : groups[i].db = db /\ groups[i].status = "perm"}
+                         Sum[T \in SUBSET S] == IF T = {} THEN 0 ELSE LET i == CHOOSE i \in T : TRUE IN groups[i].n + Sum[T \ {i}]
+                     IN Sum[S]
 
 \* Every terminal state is emitted: the scenario catalogue of the conformance run, with the
 \* prediction of the transcribed protocol.
 Emit == ret = "none" \/ PrintT(ToJson([profile |-> prof.name, fault |-> fault, proto |-> proto, ret |-> ret,
                                          clean |-> Clean, leftover |-> Leftover, bound |-> prof.name \in Bound,
+                                         exact |-> (ret = "ok" => Exact), honest |-> (ret = "ok" => Honest),
+                                         hooks |-> prof.hooks, noerr |-> prof.noerr, same |-> prof.same,
+                                         exp_in |-> IF prof.same THEN 0 ELSE Count(prof.groups, "in"),
+                                         exp_out |-> IF prof.same THEN Count(prof.groups, "in") + Count(prof.groups, "out")
+                                                     ELSE Count(prof.groups, "out"),
+                                         nreg |-> Cardinality({j \in 1..Len(prof.groups) : prof.groups[j].reg}),
                                          variants |-> SetToSeq(NaturalVariants(prof.name, fault)),
-                                         setups |-> SetToSeq(SetupVariants(prof.name)),
-                                         expected_new |-> IF ret = "ok" THEN [k \in 1..Len(made) |-> made[k]] ELSE <<>>]))
+                                         setups |-> SetToSeq(SetupVariants(prof.name))]))
 
 =============================================================================
